@@ -28,6 +28,9 @@ CLAIMED = {
  'C17': dict(
   text="Coq theorems over Merge.v (PathAwareValue::merge, the left-to-right fold over the -i files, the per-data-file merge): two maps without a common key merge to the union with nothing lost or changed; a key defined by both sources is Err(MultipleValues), never a silent choice; a successful merge preserves every entry of both sides and the alignment of the keys vector with the values map; for P1..Pn and D with pairwise distinct top-level keys the evaluated input is the document whose top-level entries are those of P1..Pn, D; permuting the parameter files only permutes the entries. Tie: PathAwareValue::merge is compared inside Coq with the model on every ordered pair of a document universe (value, keys vector, paths, error kind). Monitor on the real binary: documents split at random into 1..3 parameter files + data, every order of -i, plain and --structured, against the pre-merged document (rule statuses, file status, exit code); a key defined twice must give an error exit with a diagnostic in both modes.",
   note="tie = hook merge/doc_dump + CLI runs. The model mirrors fix 273e441 (structured mode unwrapped the merge error). Not proved: that evaluation depends on a document only through its stripped value (path-irrelevance of verdicts); that part is carried by the end-to-end comparison."),
+ 'C12': dict(
+  text="Coq theorems over Batch.v/Cli.v: validating rules files rs against data files ds (rules-major as validate.rs, data-major as structured.rs) yields, at position (i,j), exactly eval_file of that pair from the fresh state init_state, i.e. the report of the pair validated alone; permuting the rules files or the data files only permutes the reports; the run has a FAIL iff some pair FAILs; the exit status is a function of (all parsed, some FAIL, some error) and hence independent of the order in which files are given or walked. That the code really builds a fresh root scope per pair and keeps no mutable process-wide state is NOT a theorem: it is certified on every run by two inventories regenerated from the source (every `root_scope(` construction site with its enclosing loops; every static / lazy_static / thread_local / OnceCell / Mutex item) against their reviewed classification. Monitor on the real binary: 1..3 rules files reusing rule, variable and capture names x 1..4 documents, every pair alone vs the batch in several orders of -r/-d, as directories with -a/-m, as --payload, in plain mode; the cases of one test file vs each case alone.",
+  note="tie = tools/gv/inventory.py (pattern-based, /verif/inventory/*.json) + CLI runs. The pointwise theorem holds by construction of the model (eval_file has no other input); its link to the code is the inventory plus the SEval correspondence of C02. Excluded by statement: the plain-mode exit code when a parse error and a FAIL are mixed (C07)."),
 }
 
 NOT_CLAIMED = {}
